@@ -6,7 +6,7 @@
    exhibited on the model (open findings K2, K14; the IndexError K3 is fixed, F11). *)
 From Coq Require Import ZArith List Bool String PArith.
 From Droop Require Import Model.KernelBase Model.Arith Model.Prelude Model.State Model.Prims Model.Election
-  Proofs.CmdMeta Proofs.Decided Proofs.Forward Proofs.ForwardCount Proofs.Terminate.
+  Proofs.CmdMeta Proofs.Decided Proofs.Forward Proofs.ForwardCount Proofs.Zlike Proofs.Terminate Proofs.TerminateMeek.
 Import ListNotations.
 Open Scope Z_scope.
 
@@ -45,6 +45,24 @@ Theorem C01_gregory_counts_terminate_partial : forall A cfg r pr fuel,
   exists s k, exec (@crashed A) fuel (count_cmd A cfg r) (init_state A cfg pr) = Some (s, k).
 Proof. exact count_terminates. Qed.
 Print Assumptions C01_gregory_counts_terminate_partial.
+
+(* ... and for meek, warren and meek-prf under the arithmetics with exact comparisons (Fixed, integer, Guarded with guard 0;
+   S = 10^p raw units per vote): the iteration inside a round ends because it only goes on while the total surplus -- a
+   non-negative raw integer -- strictly decreases, the rounds end because each one elects or excludes somebody.  Fuel bound:
+   the raw ballot count (the largest surplus an iteration can start from) and the number of candidates. *)
+Theorem C01_meek_counts_terminate_partial : forall A S (ZL : zlike A S) cfg, exact A = false ->
+  forall pr fuel, NoDup (map pc_cid (pr_cands pr)) ->
+  (Z.to_nat (cf_nballots cfg * S) < Pos.to_nat fuel)%nat -> (List.length (pr_cands pr) < Pos.to_nat fuel)%nat ->
+  exists s k, exec (@crashed A) fuel (count_cmd A cfg RMeek) (init_state A cfg pr) = Some (s, k).
+Proof. exact meek_count_terminates. Qed.
+Print Assumptions C01_meek_counts_terminate_partial.
+
+Theorem C01_meek_prf_counts_terminate_partial : forall A S (ZL : zlike A S) cfg, exact A = false ->
+  forall pr fuel, NoDup (map pc_cid (pr_cands pr)) ->
+  (Datatypes.S (Z.to_nat (cf_nballots cfg * S)) < Pos.to_nat fuel)%nat -> (List.length (pr_cands pr) < Pos.to_nat fuel)%nat ->
+  exists s k, exec (@crashed A) fuel (count_cmd A cfg RMeekPrf) (init_state A cfg pr) = Some (s, k).
+Proof. exact meek_prf_count_terminates. Qed.
+Print Assumptions C01_meek_prf_counts_terminate_partial.
 
 (* the full statement is FALSE for meek under guarded arithmetic with guard > 0: the model (which agrees with the
    code on this input, corpus K2) ends in a ZeroDivisionError.  5 candidates, 4 seats, ballots "1: 3 1 5", "5: 5". *)
